@@ -446,6 +446,32 @@ class Models:
         A(r'^<std::vec::Vec<T, A> as std::ops::Deref(Mut)?>::deref(_mut)?$|^<std::vec::Vec<T, A> as std::convert::As(Mut|Ref)<\[T\]>>::as_(mut|ref)$|^std::vec::Vec::<T, A>::as_(mut_)?slice$',
           name='vec_deref', value=vec_deref, nohavoc=True)
 
+        def _promoted_range(I, t):
+            """(lo, hi) when the receiver is a promoted constant `lo..=hi` (`(1..=12).contains(..)` compiles to a reference to promoted[k])"""
+            b = I.body
+            def single_def(l):
+                ds = [s_ for blk in b['blocks'] for s_ in blk['stmts'] if s_['s'] == 'assign' and s_['lhs']['l'] == l and not s_['lhs'].get('proj')]
+                return ds[0] if len(ds) == 1 else None
+            a = t['args'][0]
+            for _ in range(6):
+                if a.get('o') == 'const' and 'promoted' in a:
+                    pb = I.F.bodies.get('%s::%s::promoted[%d]' % (b['crate'], a['uneval'], a['promoted']))
+                    if pb is None: return None
+                    for blk in pb['blocks']:
+                        pt = blk['term']
+                        if pt['t'] == 'call' and I.F.callee_name(pt).split('#')[0].endswith('RangeInclusive::<Idx>::new') and len(pt['args']) == 2 \
+                                and all(x.get('o') == 'const' and x.get('bits') is not None for x in pt['args']):
+                            return int(pt['args'][0]['bits']), int(pt['args'][1]['bits'])
+                    return None
+                if a.get('o') not in ('copy', 'move'): return None
+                d = single_def(a['p']['l'])
+                if d is None: return None
+                rv = d['rv']
+                if rv['r'] == 'use': a = rv['a']
+                elif rv['r'] == 'ref': a = {'o': 'copy', 'p': {'l': rv['p']['l'], 'proj': []}}
+                else: return None
+            return None
+
         def from_one(I, st, args, akeys, t, dkey):
             a = args[0]
             st.m[dkey] = AV('ref', ty=t['dest']['ty'], tgt=a.tgt if a is not None and a.k == 'ref' else None, extra=('slicelen', 1, 1))
@@ -699,11 +725,16 @@ class Models:
         def contains(I, st, args, akeys, t, dkey):
             r = _ref_target(I, st, args[0]); x = args[1]
             xv = I.deref_value(st, x)
-            if r is None or xv is None or xv.k != 'int':
+            if xv is None or xv.k != 'int':
                 st.m[dkey] = mk_bool({0, 1}); return
+            if r is None: r = (-1, ())
             lo = st.m.get((r[0], r[1] + (0,))); hi = st.m.get((r[0], r[1] + (1,)))
             if lo is None or hi is None or lo.k != 'int' or hi.k != 'int':
-                st.m[dkey] = mk_bool({0, 1}); return
+                # a promoted constant receiver: `(1..=12).contains(&x)` (the spelling of preconditions in debug_assert!s)
+                pr = _promoted_range(I, t) if xv.k == 'int' else None
+                if pr is None:
+                    st.m[dkey] = mk_bool({0, 1}); return
+                lo = mk_int(pr[0], pr[0], xv.ty); hi = mk_int(pr[1], pr[1], xv.ty)
             inclusive = 'Inclusive' in _arg_local_ty(I, t, 0)
             t1 = cmp_eval('Ge', xv, lo); t2 = cmp_eval('Le' if inclusive else 'Lt', xv, hi)
             vs = {a & b for a in t1 for b in t2}
